@@ -167,6 +167,9 @@ def le_bytes(byts, r):
 
 
 def inbyte(obj, off):
+    """symbolic content of byte `off` at a cursor: a pointer cursor / object, or an index cursor ("idx", object, symbolic offset)"""
+    if isinstance(obj, tuple) and obj and obj[0] == "idx":
+        return gf2.sym_word(("mem", obj[1], (obj[2], off)), 8)
     return gf2.sym_word(("mem", obj, off), 8)
 
 
@@ -205,11 +208,13 @@ def outs_of(p, obj=None):
     for e in p.events:
         if e[0] == "out":
             out[(e[1], e[2])] = list(e[3])
+        elif e[0] == "out-sym":
+            out[(("idx", e[1], e[2]), e[3])] = list(e[4])       # store at object + symbolic offset + constant: an index cursor
     return out
 
 
 def ins_of(p):
-    return [(e[1], e[2]) for e in p.events if e[0] == "in"]
+    return [(e[1], e[2]) for e in p.events if e[0] == "in"] + [(("idx", e[1], e[2]), e[3]) for e in p.events if e[0] == "in-sym"]
 
 
 def alias_order_ok(p, in_obj, out_obj):
@@ -218,6 +223,10 @@ def alias_order_ok(p, in_obj, out_obj):
     for e in p.events:
         if e[0] == "out" and e[1] == out_obj:
             stored.add(e[2])
+        elif e[0] == "out-sym" and ("idx", e[1], e[2]) == out_obj:
+            stored.add(e[3])
         elif e[0] == "in" and e[1] == in_obj and e[2] in stored:
             return False, e[2]
+        elif e[0] == "in-sym" and ("idx", e[1], e[2]) == in_obj and e[3] in stored:
+            return False, e[3]
     return True, None
